@@ -142,18 +142,6 @@ func readSet(m *sqlMeta, q string, mst string) (map[string]map[uint64]bool, stri
 	if os.Getenv("C11_DEBUG") != "" {
 		fmt.Printf("DEBUG %s\n  timerange [%d,%d] cond %v\n  shardmap %+v\n", q, rec.tr.MinTimeNano(), rec.tr.MaxTimeNano(), rec.cond, rec.got.ShardMap)
 	}
-	if os.Getenv("C11_DEBUG") != "" {
-		gs, _ := m.Client.ShardGroupsByTimeRange(dbName, rpName, time.Unix(0, rec.tr.MinTimeNano()), time.Unix(0, rec.tr.MaxTimeNano()))
-		msti, _ := m.Client.Measurement(dbName, rpName, mst)
-		for i := range gs {
-			alive := m.Client.GetAliveShards(dbName, &gs[i], true)
-			ski := msti.GetShardKey(gs[i].ID)
-			shs := gs[i].TargetShards(msti, ski, rec.cond, alive)
-			e2, _ := influxql.ParseExpr("host = 'a' OR usage > 1")
-			fmt.Printf("  simple: %+v\n  walk: %s\n", gs[i].TargetShards(msti, ski, e2, alive), dumpExpr(rec.cond))
-			fmt.Printf("  group %d alive %v ski %+v init %d idx %v -> %+v\n", gs[i].ID, alive, ski, msti.InitNumOfShards, msti.ShardIdexes, shs)
-		}
-	}
 	for src, byPt := range rec.got.ShardMap {
 		set := out[src.Measurement]
 		if set == nil {
@@ -913,6 +901,13 @@ func genCase(r *rand.Rand, policy string, nPoints, nQueries int) *Case {
 			}
 			g.tagVals[k] = append(append([]string{}, tagDomain[k][:domSize[k]]...), "nosuch")
 		}
+		for k := range key {
+			if contains(ms.Tags, k) {
+				g.keyTags = append(g.keyTags, k)
+			}
+		}
+		sort.Strings(g.keyTags)
+		g.keyOnly = r.IntN(100) < 20
 		q := Query{Mst: ms.Name, Cond: g.gen(1 + r.IntN(5)), Form: r.IntN(32), FromRegex: len(s.Msts) > 1 && r.IntN(100) < 8}
 		if r.IntN(100) < 6 {
 			// hint query: the condition names every tag of one existing series
@@ -1007,15 +1002,4 @@ func runCase(c reporter, cs *Case, caseKey string) int {
 		viol += checkQuery(c, cs, res, &cs.Queries[qi], caseKey, qi)
 	}
 	return viol
-}
-
-func dumpExpr(e influxql.Expr) string {
-	switch x := e.(type) {
-	case *influxql.BinaryExpr:
-		return fmt.Sprintf("Bin[%s](%s, %s)", x.Op, dumpExpr(x.LHS), dumpExpr(x.RHS))
-	case *influxql.ParenExpr:
-		return fmt.Sprintf("Paren(%s)", dumpExpr(x.Expr))
-	default:
-		return fmt.Sprintf("%T:%s", e, e)
-	}
 }
